@@ -143,31 +143,39 @@ theorem compat_writeSt {s : State} {D : Node} (V : VInv s D) (p : List Name) (d 
   · rw [if_neg hq] at h1
     exact compat_mkdirSt V p.dropLast h.2.1 q e e' h1 h2
 
-/-- `WriteFile` with a cache-level path string `raw` of normal form `P` -/
+theorem jaddIf_ok (j : List Bytes) (k : Bytes) : jaddIf .ok j k = jadd j k := rfl
+
+/-- `WriteFile` with a cache-level path string `raw` of normal form `P` (the cache cleans the path first) -/
 theorem vinv_writeFile {s : State} {D D' : Node} (V : VInv s D) (raw data : Bytes) (P : List Name)
     (hn : norm raw = some P) (hok : FS.writeOk (abs D) P) (hD' : Inv D')
     (hpost : abs D' = FS.writeSt (abs D) P data) :
     (writeFile s raw data).2 = .ok ∧ VInv (writeFile s raw data).1 D'
-    ∧ abs (writeFile s raw data).1.buffer = FS.writeSt (abs s.buffer) P data := by
-  have hw := root_writeFile s.buffer V.hb raw data P hn
-  obtain ⟨hpre, hres, hst⟩ : FS.writeOk (abs s.buffer) P ∧ (Root.writeFile s.buffer raw data).2 = .ok
-      ∧ abs (Root.writeFile s.buffer raw data).1 = FS.writeSt (abs s.buffer) P data := by
+    ∧ abs (writeFile s raw data).1.buffer = FS.writeSt (abs s.buffer) P data
+    ∧ (writeFile s raw data).1.write = jadd s.write (cleanPath raw) := by
+  have hn' := Path.norm_cleanPath raw P hn
+  have hw := root_writeFile s.buffer V.hb (cleanPath raw) data P hn'
+  obtain ⟨hpre, hres, hst⟩ : FS.writeOk (abs s.buffer) P ∧ (Root.writeFile s.buffer (cleanPath raw) data).2 = .ok
+      ∧ abs (Root.writeFile s.buffer (cleanPath raw) data).1 = FS.writeSt (abs s.buffer) P data := by
     rcases hw.1 with ⟨a, b, c⟩ | ⟨a, _, _⟩
     · exact ⟨a, b, c⟩
     · exact absurd (V.writeOk hok) a
-  have hinv : Inv (Root.writeFile s.buffer raw data).1 := hw.2.1.inv V.hb (Path.norm_plain raw P hn)
-  refine ⟨hres, ⟨hinv, V.hr, hD', ?_, ?_⟩, hst⟩
-  · show Compat (abs (Root.writeFile s.buffer raw data).1) (abs s.remote)
+  have hinv : Inv (Root.writeFile s.buffer (cleanPath raw) data).1 :=
+    hw.2.1.inv V.hb (Path.norm_plain _ P hn')
+  refine ⟨hres, ⟨hinv, V.hr, hD', ?_, ?_⟩, hst, ?_⟩
+  · show Compat (abs (Root.writeFile s.buffer (cleanPath raw) data).1) (abs s.remote)
     rw [hst]; exact compat_writeSt V P data hok
-  · show abs D' = overlay (abs (Root.writeFile s.buffer raw data).1) (abs s.remote)
+  · show abs D' = overlay (abs (Root.writeFile s.buffer (cleanPath raw) data).1) (abs s.remote)
     rw [hpost, hst, V.eq, overlay_writeSt]
+  · show jaddIf (Root.writeFile s.buffer (cleanPath raw) data).2 s.write (cleanPath raw) = _
+    rw [hres]; rfl
 
-/-- `Writer` (the cache cleans the path first) -/
+/-- `Writer` -/
 theorem vinv_writer {s : State} {D D' : Node} (V : VInv s D) (raw : Bytes) (chunks : List Bytes) (P : List Name)
     (hn : norm raw = some P) (hok : FS.writeOk (abs D) P) (hD' : Inv D')
     (hpost : abs D' = FS.writeSt (abs D) P chunks.flatten) :
     (writer s raw chunks).2 = .ok ∧ VInv (writer s raw chunks).1 D'
-    ∧ abs (writer s raw chunks).1.buffer = FS.writeSt (abs s.buffer) P chunks.flatten := by
+    ∧ abs (writer s raw chunks).1.buffer = FS.writeSt (abs s.buffer) P chunks.flatten
+    ∧ (writer s raw chunks).1.write = jadd s.write (cleanPath raw) := by
   have hn' := Path.norm_cleanPath raw P hn
   have hw := root_writer s.buffer V.hb (cleanPath raw) chunks P hn'
   obtain ⟨hpre, hres, hst⟩ : FS.writeOk (abs s.buffer) P ∧ (Root.writer s.buffer (cleanPath raw) chunks).2 = .ok
@@ -177,11 +185,13 @@ theorem vinv_writer {s : State} {D D' : Node} (V : VInv s D) (raw : Bytes) (chun
     · exact absurd (V.writeOk hok) a
   have hinv : Inv (Root.writer s.buffer (cleanPath raw) chunks).1 :=
     hw.2.1.inv V.hb (Path.norm_plain _ P hn')
-  refine ⟨hres, ⟨hinv, V.hr, hD', ?_, ?_⟩, hst⟩
+  refine ⟨hres, ⟨hinv, V.hr, hD', ?_, ?_⟩, hst, ?_⟩
   · show Compat (abs (Root.writer s.buffer (cleanPath raw) chunks).1) (abs s.remote)
     rw [hst]; exact compat_writeSt V P _ hok
   · show abs D' = overlay (abs (Root.writer s.buffer (cleanPath raw) chunks).1) (abs s.remote)
     rw [hpost, hst, V.eq, overlay_writeSt]
+  · show jaddIf (Root.writer s.buffer (cleanPath raw) chunks).2 s.write (cleanPath raw) = _
+    rw [hres]; rfl
 
 /-- `MkdirAll` -/
 theorem vinv_mkdirAll {s : State} {D D' : Node} (V : VInv s D) (raw : Bytes) (P : List Name)
